@@ -66,4 +66,13 @@ theorem get_del_some {m : Map κ ν} {k k' : κ} {v : ν} (h : (m.del k).get k' 
   · cases h
   · exact h
 
+theorem mem_of_get {m : Map κ ν} {k : κ} {v : ν} (h : m.get k = some v) : (k, v) ∈ m := by
+  induction m with
+  | nil => simp [get] at h
+  | cons p r ih =>
+    obtain ⟨a, b⟩ := p
+    by_cases e : a = k
+    · subst e; simp [get] at h; subst h; exact List.mem_cons_self
+    · simp [get, e] at h; exact List.mem_cons_of_mem _ (ih h)
+
 end Mixin.KV.Map
